@@ -18,5 +18,9 @@ def run(ctx):
     ca.ca_loops(ctx, "J1939_21")
     ca.ca_loops(ctx, "J1939_22")
     ca.claim_timer(ctx)
+    ctx.rule("R-CLAIM-ORDER", "the starting CA leaves NONE before its first claim is sent (a synchronous veto is not ignored)", floor=2)
+    ca.claim_order(ctx)
+    ctx.rule("R-LOSE-ORDER", "a losing CA has left NORMAL / recorded the new announcement before its next frame is sent", floor=2)
+    ca.lose_order(ctx)
     ca.claim_only(ctx)
     return "J1939-81 decision table, comparison direction, broadcast and veto-timer shape of the claim procedure"
